@@ -70,7 +70,28 @@ rtl
 }
 jmp.w lib.entry
 .ascii 'it''s'
+.ascii 'COL1\tCOL2\t\tEND'
+after_text:
+.dw after_text
 """.replace("''", ""),
+    # conditionals without an else block, directly followed by blocks: a comment between them is only a comment, whatever it says
+    """*=0x008000
+flag := 1
+.if flag {
+lda #1
+}
+{
+lda #2
+}
+.if 0 {
+lda #3
+}
+{
+lda #4
+}
+done:
+.dw done
+""",
 ]
 OPS = None
 
@@ -119,7 +140,7 @@ def relayout(lines, rng, use_include, tmpdir):
         if rng.random() < 0.25:
             out.append(rng.choice(["", "   ", "\t"]))
         if rng.random() < 0.2:
-            out.append(rng.choice(["; a comment", "  ; indented comment with 'quote and /* inside", ";"]))
+            out.append(rng.choice(["; a comment", "  ; indented comment with 'quote and /* inside", ";", "; else", ";else", "; nop", ";}", "; {"]))
         if rng.random() < 0.12 and depth == 0:
             out.append(rng.choice(["/* block comment */", "/* a\n   multi-line\n   comment */", "/* doc **/", "/** doc **/", "/***/", "/**/", "/**** banner ****/", "/* a * b / c ** d */",
                                    "/* \u00e9t\u00e9 ; 'quote' */"]))
@@ -273,7 +294,7 @@ def run(tier, seed):
     samples = []
     kinds = set()
     for i in range(n + (40 if tier == "thorough" else 10)):
-        case = {"seed": seed * 2147483 + i, "base": (i % 7) if i % 7 < len(HAND) else 100 + i % 40, "include": i % 3 == 0}
+        case = {"seed": seed * 2147483 + i, "base": (i % 9) if i % 9 < len(HAND) else 100 + i % 40, "include": i % 3 == 0}
         if i >= n:
             case = {"seed": seed * 2147483 + i, "run": i - n}
             if (i - n) % 5 == 4:
@@ -290,7 +311,7 @@ def run(tier, seed):
     return {"evaluations": n + (40 if tier == "thorough" else 10), "distinct_nontrivial": len(distinct),
             "rule": "random compositions of: blank lines, indentation, trailing blanks, full-line and end-of-line ';' comments, one-line and multi-line /* */ comments "
                     "between statements, blanks next to operators / commas / inside brackets, letter case of mnemonics / size suffixes / index registers / hex digits, "
-                    "moving a run of top-level statements into an .include'd file, a repeated run (top level / named scope / block) included from ONE file at every occurrence, a run with a relative .include of its own moved into another directory holding a same-named file -- on 2 hand-written programs covering every operand shape and 40 generated programs; "
+                    "moving a run of top-level statements into an .include'd file, a repeated run (top level / named scope / block) included from ONE file at every occurrence, a run with a relative .include of its own moved into another directory holding a same-named file -- on 3 hand-written programs covering every operand shape, TABs inside strings and else-less conditionals followed by blocks and 40 generated programs; "
                     "compares blocks and all symbol values with the original",
             "samples": samples, "failures": failures}
 
